@@ -34,6 +34,8 @@ Section StitchProg.
     end.
 
   Definition meta_is_file (r : reply) : bool := match r with RMeta _ => true | _ => false end.
+  (* band_is_closed: only a NON-EMPTY tail closes a band ("fix: a zero-length BANDTAIL ...") *)
+  Definition meta_is_closed (r : reply) : bool := match r with RMeta true => true | _ => false end.
 
   Inductive hstatus := HOk | HErr | HPanic.
   (* Band::open: read_json(BANDHEAD) then the version / flags checks *)
@@ -119,7 +121,7 @@ Section StitchProg.
   Definition after_band (n : nat) (below : option str -> list entry -> N -> prog sres)
              (last : option str) (acc : list entry) (merr : N) : prog sres :=
     Do (OpMeta (PTail (N.of_nat n))) (fun r =>
-      if meta_is_file r then Ret (acc, None, SDone, last, merr) else below last acc merr).
+      if meta_is_closed r then Ret (acc, None, SDone, last, merr) else below last acc merr).
 
   (* previous_existing_band fused with what follows, structural on the band number *)
   Fixpoint below (n : nat) (last : option str) (acc : list entry) (merr : N) : prog sres :=
